@@ -784,6 +784,22 @@ impl World {
                 };
                 self.objs.insert(n(1), Obj::Stream(s));
             }
+            "map_s" | "map_sl" => {
+                // a map whose FUNCTION reads a cell (strictly, or through a Lazy forced on the spot): by property C04
+                // such a read sees the pre-transaction value, i.e. the stream equals the snapshot of the cell
+                let f = parse_fn(w[3]);
+                let c = self.cell(n(4));
+                let lazy = w[0] == "map_sl";
+                let dep = c.to_dep();
+                let s = self.stream(n(2)).map(lambda1(
+                    move |a: &V| {
+                        let b = if lazy { c.sample_lazy().run() } else { c.sample() };
+                        app_n(f, &[a.clone(), b])
+                    },
+                    vec![dep],
+                ));
+                self.objs.insert(n(1), Obj::Stream(s));
+            }
             "snapshot1" => {
                 let s = self.stream(n(2)).snapshot1(&self.cell(n(3)));
                 self.objs.insert(n(1), Obj::Stream(s));
